@@ -112,7 +112,8 @@ SPELL = collections.OrderedDict([
     ('nth', ['nosign', 'paren']),
     ('dtstart', ['kwarg', 'kwarg+inline']),
     ('prefix', ['none']),
-    ('fold', ['fold', 'fold-crlf', 'fold-param']),
+    ('fold', ['fold', 'fold-crlf', 'fold-param', 'fold-tab']),
+    ('numsign', ['plus']),
     ('valueparm', ['VALUE=DATE-TIME']),
     ('tzids', ['mapping', 'callable']),
     ('opt', ['forceset', 'compatible', 'cache', 'ignoretz', 'unfold']),
@@ -136,10 +137,12 @@ def fmt_wd(x, style):
     return '%+d%s' % (n, WD[w])
 
 
-def fmt_list(v):
+def fmt_list(v, plus=False):
+    """plus: RFC 5545 allows an explicit '+' on the signed numbers (ordmoday, ordyrday, weeknum, setposday)"""
+    f = (lambda x: '%+d' % x) if plus else str
     if isinstance(v, int):
-        return str(v)
-    return ','.join(str(x) for x in v)
+        return f(v)
+    return ','.join(f(x) for x in v)
 
 
 def render(case, sp, term):
@@ -160,7 +163,7 @@ def render(case, sp, term):
                     ('byyearday', 'BYYEARDAY'), ('byweekno', 'BYWEEKNO'), ('byeaster', 'BYEASTER'),
                     ('byhour', 'BYHOUR'), ('byminute', 'BYMINUTE'), ('bysecond', 'BYSECOND')):
         if k in case:
-            parts.append((name, fmt_list(case[k])))
+            parts.append((name, fmt_list(case[k], plus=bool(sp.get('numsign')) and k in ('bysetpos', 'bymonthday', 'byyearday', 'byweekno'))))
     if 'byweekday' in case:
         parts.append((sp.get('bydayname', 'BYDAY'),
                       ','.join(fmt_wd(x, sp.get('nth')) for x in rules.wd_list(case['byweekday']))))
@@ -216,7 +219,7 @@ def render(case, sp, term):
                 else:
                     cut = min(len(ln) - 2, ln.index(':') + 4)   # inside the value
                 folded.append(ln[:cut])
-                folded.append(' ' + ln[cut:])
+                folded.append(('\t' if fold == 'fold-tab' else ' ') + ln[cut:])      # RFC 5545 3.1: SPACE or HTAB
             else:
                 folded.append(ln)
         lines = folded
